@@ -497,7 +497,10 @@ class Simulator(EventProducer, SimulatorInterface, Generic[TIME]):
             raise DSOLError("cannot end replication: replication already ended")
         if self._simulator_time < self._replication.end_sim_time:
             print("warning: end_replication called with simtime < runlength")
-            self._simulator_time = self._replication.end_sim_time
+            if not self.is_starting_or_running():
+                # while running, the run loop moves the clock to the end 
+                # after the event in progress has finished
+                self._simulator_time = self._replication.end_sim_time
         self._replication_state = ReplicationState.ENDING
         self.__worker.wakeup()  # just to be sure
     
@@ -627,8 +630,11 @@ class DEVSSimulator(Simulator[TIME], Generic[TIME]):
                     or self.eventlist().is_empty()):
                 if self._simulator_time < self._run_until_time:
                     self._simulator_time = self._run_until_time
-                if self._run_until_time >= self._replication.end_sim_time:
+                if (self._run_until_time >= self._replication.end_sim_time
+                        or self._replication_state == ReplicationState.ENDING):
                     self._replication_state = ReplicationState.ENDING
+                    if self._simulator_time < self._replication.end_sim_time:
+                        self._simulator_time = self._replication.end_sim_time
                 self._run_state = RunState.STOPPING
                 return;
             # get the first event
